@@ -135,6 +135,10 @@ class Parser:
         words = [str(t[1]) for t in self.toks]
         kind = words[0].upper()
         if kind == "CREATE" and len(words) > 1 and words[1].upper() == "TABLE":
+            if_not_exists = [w.upper() for w in words[2:5]] == ["IF", "NOT", "EXISTS"]
+            if if_not_exists:
+                self.toks = self.toks[:2] + self.toks[5:]
+                words = words[:2] + words[5:]
             name = words[2]
             # column names up to the matching paren
             cols = []
@@ -165,7 +169,7 @@ class Parser:
                     continue
                 names.append(str(c[0][1]).lower() if c[0][0] == "kw" else c[0][1])
                 types.append(str(c[1][1]).lower() if len(c) > 1 else "")
-            return ("create_table", name, names, types, pk)
+            return ("create_table", name, names, types, pk, if_not_exists)
         if kind == "CREATE" and len(words) > 1 and words[1].upper() == "INDEX":
             return ("create_index", words[2])
         if kind == "DROP":
